@@ -654,6 +654,18 @@ func (e *Engine) callStatic0(c *ast.CallExpr, fn *types.Func, sig *types.Signatu
 		return []Value{e.foldCall(fd, fpk, fn, args, sig.Results().At(0).Type())}
 	}
 	if res, ok := e.stdStub(full, c, recv, args, sig, st); ok {
+		if full == "(reflect.Value).Elem" && recv != nil && len(res) == 1 && e.bound == 0 {
+			// Elem of a non-nil pointer or interface is a valid Value (of a nil one it is the zero Value, on which
+			// every setter panics with a *reflect.ValueError)
+			if m, _, _ := types.LookupFieldOrMethod(recv.Typ, false, nil, "IsNil"); m != nil {
+				if mf, ok := m.(*types.Func); ok {
+					isNil := e.pureUF("(reflect.Value).IsNil", mf.Type().(*types.Signature), recv, nil, st)
+					e.declareFun("rv_valid", []string{e.sortOf(recv.Typ)}, "Bool")
+					e.assume(st.pc, implies(not(isNil[0].T), sx("rv_valid", res[0].T)))
+					e.stubsUsed["(reflect.Value).Elem: the result is a valid Value when the operand is not nil"] = true
+				}
+			}
+		}
 		return res
 	}
 	ct := e.contractFor(fn)
